@@ -97,9 +97,16 @@ def run(ctx):
                         ops.append(f"sdiv {t.name} {k} {a} {u}"); meta.append(("sdiv", t, [va, vk, None if None in (va, vk) or vk == 0 else va / vk]))
             for r in rows:
                 s, rh, o = r["self"][0], r["rhs"][0], r["out"][0]
-                for _ in range(4 if quick else 40):
-                    u, v = rng.randrange(dc.n_units(names, s)), rng.randrange(dc.n_units(names, rh))
-                    a, b = rng.choice(pool), rng.choice(pool)
+                ns, nr = dc.n_units(names, s), dc.n_units(names, rh)
+                # the extreme unit pairs of every derivation (smallest x smallest, ... : the combined scale is at the edge
+                # of what the result quantity's units span) with moderate amounts, then random pairs and amounts
+                def extreme(q, n):
+                    sc_q = [dc.scale_val(be, scales, q, i) for i in range(n)]
+                    return [min(range(n), key=lambda i: sc_q[i]), max(range(n), key=lambda i: sc_q[i])]
+                fixed = [(u, v, a, b) for u in extreme(s, ns) for v in extreme(rh, nr)
+                         for a, b in ((pool[0], pool[1]) if be == "dec" else (rng.choice(pool), rng.choice(pool)),)]
+                todo = fixed + [(rng.randrange(ns), rng.randrange(nr), rng.choice(pool), rng.choice(pool)) for _ in range(4 if quick else 40)]
+                for u, v, a, b in todo:
                     va, vb = (kc.value(be, a), kc.value(be, b)) if be == "dec" else (None, None)
                     if be == "dec" and r["trait"] == "Div" and vb == 0:
                         continue
